@@ -16,8 +16,8 @@
 \*  M4 JSONToMap(json of T) = Flatten(T); MapToJSON(F) is the JSON text of Expand(F).
 \*  M5 CleanFlattenedConfig(F) keeps exactly the entries of F whose key is a registered option;
 \*     CleanHierarchicalConfig(T) keeps exactly the leaves of T whose path is the key of a registered
-\*     option (whether sections that lost all leaves stay behind as empty sections is not specified;
-\*     no new section or leaf appears).
+\*     option and removes the sections that have no such leaf (persistence_test.go: cleaning a map
+\*     without any registered option leaves the empty map).
 \*
 \* A nested map is a set of entries [p |-> path, v |-> value] with pairwise incomparable paths (no path
 \* is a prefix of another); v = 0 marks an empty section.  Path segments 1 2 3 = "a" "b" "c"; values 1..4
@@ -42,12 +42,7 @@ Fold(T, F) == IF F = {} THEN {T} ELSE UNION {Fold(Put(T, e.p, e.v), F \ {e}) : e
 Expands(F) == Fold({}, F)
 
 CleanFlat(F, Reg) == {e \in F : e.p \in Reg}
-\* allowed results of cleaning the nested map T
-Nodes(T) == {e.p : e \in {x \in T : x.v = 0}} \cup UNION {{SubSeq(e.p, 1, n) : n \in 1..(Len(e.p) - 1)} : e \in T}
-CleanHierOK(T, Reg, T2) ==
-    /\ IsTree(T2)
-    /\ Prune(T2) = CleanFlat(Prune(T), Reg)
-    /\ \A e \in T2 : e.v = 0 => e.p \in Nodes(T)
+CleanHier(T, Reg) == CleanFlat(Prune(T), Reg)
 
 \* ---------------------------------------------------------------- laws (checked by TLC on every tree of a small domain)
 TreeLaws(T, Reg) ==
@@ -55,7 +50,7 @@ TreeLaws(T, Reg) ==
     /\ IsFlat(Flatten(T)) /\ ConflictFree(Flatten(T))
     /\ Expands(Flatten(T)) = {Prune(T)}                                  \* M3: expand(flatten(m)) = m
     /\ \A X \in Expands(Flatten(T)) : Flatten(X) = Flatten(T)
-    /\ CleanHierOK(T, Reg, CleanFlat(Prune(T), Reg))                      \* the two cleaners agree
+    /\ IsTree(CleanHier(T, Reg)) /\ Flatten(CleanHier(T, Reg)) = CleanFlat(Flatten(T), Reg)   \* the two cleaners agree
     /\ CleanFlat(CleanFlat(Flatten(T), Reg), Reg) = CleanFlat(Flatten(T), Reg)
 PutLaws(T, p, v) == LET T2 == Put(T, p, v) IN
     /\ IsTree(T2)
